@@ -32,7 +32,11 @@ pub fn gen(seed: u64, tier: Tier, k: u64) -> Value {
         // a small container written with the low-level creators: content packs declared in reverse id order, the directory pack
         // declared first or second (every pack of such a manifest gets rewritten by a history of a few steps)
         let n_extra = rng.range(1, 3) as usize;
-        let case = gen_small(&mut rng, tier, Pkg::NoConcat, n_extra, 3);
+        let mut case = gen_small(&mut rng, tier, Pkg::NoConcat, n_extra, 3);
+        if k % 33 == 4 {
+            // free data everywhere, one pack with 70 000 bytes of it: the pack descriptions start beyond the first 64 KiB of the manifest
+            case.dir.free = (rng.next() & !7) | 1;
+        }
         return json!({"case": case.to_json(), "layout": "as-created", "steps": rng.range(6, 20), "h_seed": rng.next(), "via_cli": k % 22 == 4, "many": true});
     }
     let pkg = [Pkg::NoConcat, Pkg::OneFile, Pkg::TwoFiles][(k % 3) as usize];
